@@ -116,8 +116,7 @@ theorem start_nf (fl cfg s t op) : NF (start fl cfg s t op).2 := by
     · nf
     · split
       · nf
-      · simp only []
-        split
+      · split
         · split
           · unfold osSendStep; split
             · nf
@@ -134,7 +133,8 @@ theorem start_nf (fl cfg s t op) : NF (start fl cfg s t op).2 := by
                   · nf
                   · exact failSend_nf _ _ _ _ _ _
           · nf
-        · split
+        · unfold startSendBuf
+          split
           · nf
           · exact failSend_nf _ _ _ _ _ _
           · split
